@@ -1,17 +1,19 @@
 #!/usr/bin/env python3
-"""dev aid: tools/trymut.py <prop> <file-rel-to-src/pydrobert/torch> <old> <new> [--tier quick] : apply a textual mutation to /repo,
-run the check, always revert (git checkout)."""
-import subprocess, sys
+"""dev aid: tools/trymut.py <prop> <file-rel-to-src/pydrobert/torch> <old> <new> [check args] : apply a textual mutation to a scratch
+copy of /repo/src (VERIF_REPO), run the check there, remove the copy. /repo itself is not touched."""
+import os, shutil, subprocess, sys, tempfile
 prop, rel, old, new = sys.argv[1:5]
 extra = sys.argv[5:]
-p = "/repo/src/pydrobert/torch/" + rel
-s = open(p).read()
-assert s.count(old) == 1, "pattern occurs %d times" % s.count(old)
-open(p, "w").write(s.replace(old, new))
+scratch = tempfile.mkdtemp(prefix="trymut_")
 try:
-    r = subprocess.run(["/verif/check", prop] + extra, capture_output=True, text=True)
+    subprocess.run(["rsync", "-a", "--exclude", "__pycache__", "/repo/src", scratch + "/"], check=True)
+    p = scratch + "/src/pydrobert/torch/" + rel
+    s = open(p).read()
+    assert s.count(old) == 1, "pattern occurs %d times" % s.count(old)
+    open(p, "w").write(s.replace(old, new))
+    r = subprocess.run(["/verif/check", prop] + extra, capture_output=True, text=True, env=dict(os.environ, VERIF_REPO=scratch))
     lines = [l for l in r.stdout.splitlines() if not l.startswith("WARNING")]
     print("\n".join(l[:400] for l in lines[-14:]))
     print("EXIT", r.returncode)
 finally:
-    subprocess.run(["git", "-C", "/repo", "checkout", "--", p])
+    shutil.rmtree(scratch, ignore_errors=True)
